@@ -835,8 +835,10 @@ theorem instruction_repeatable (v : V) : Repeatable Instruction.lenM Instruction
 
 /-! ### buckets -/
 
-/-- the fixed 16 bytes of a bucket -/
-def bucketHdr (l : UInt16) (w wp wg : Nat) : Bytes := be16 l ++ be16 (n16 w) ++ be32 (n32 wp) ++ be32 (n32 wg) ++ zeros 4
+/-- a bucket's encoding: the fixed 16 bytes, the actions' bytes `x`, zero padding up to the reported size `l` -/
+def bucketEnc (l : UInt16) (w wp wg : Nat) (x : Bytes) : Bytes :=
+  (be16 l ++ be16 (n16 w) ++ be32 (n32 wp) ++ be32 (n32 wg) ++ zeros 4 ++ x) ++
+    zeros (l.toNat - (be16 l ++ be16 (n16 w) ++ be32 (n32 wp) ++ be32 (n32 wg) ++ zeros 4 ++ x).length)
 
 /-- a uint16 stored in a field and read back is unchanged -/
 theorem u16_roundtrip (l : UInt16) : n16 l.toNat = l := by
@@ -855,16 +857,16 @@ theorem bucket_repeatable (v : V) : Repeatable Bucket.lenM Bucket.marshalM v := 
   have build : ∀ l0 w wp wg p as ls bss as2, mapM2 Action.lenM as = .ok (ls, as) →
       mapM2 Action.marshalM as = .ok (bss, as2) →
       Bucket.marshalM (.obj "Bucket" [l0, .num w, .num wp, .num wg, p, .list as]) =
-        .ok (bucketHdr (round8 (16 + sum16 ls)) w wp wg ++ bss.flatten,
+        .ok (bucketEnc (round8 (16 + sum16 ls)) w wp wg bss.flatten,
              .obj "Bucket" [V.u16 (round8 (16 + sum16 ls)), .num w, .num wp, .num wg, p, .list as2]) := by
     intro l0 w wp wg p as ls bss as2 hl hm
     have := marshalList_of_mapM2 Action.marshalM as false bss as2 hm
-    simp only [Bucket.marshalM, lenOf _ _ _ _ _ _ _ _ hl, Res.bind_ok, this, bucketHdr]
+    simp only [Bucket.marshalM, lenOf _ _ _ _ _ _ _ _ hl, Res.bind_ok, this, bucketEnc]
     split <;> simp
   have shape : ∀ w bs v2, Bucket.marshalM w = .ok (bs, v2) →
       ∃ l0 wt wp wg p as ls as1 bss as2, w = .obj "Bucket" [l0, .num wt, .num wp, .num wg, p, .list as] ∧
         mapM2 Action.lenM as = .ok (ls, as1) ∧ mapM2 Action.marshalM as1 = .ok (bss, as2) ∧
-        bs = bucketHdr (round8 (16 + sum16 ls)) wt wp wg ++ bss.flatten ∧
+        bs = bucketEnc (round8 (16 + sum16 ls)) wt wp wg bss.flatten ∧
         v2 = .obj "Bucket" [V.u16 (round8 (16 + sum16 ls)), .num wt, .num wp, .num wg, p, .list as2] := by
     intro w bs v2 h2
     unfold Bucket.marshalM at h2
@@ -1425,67 +1427,6 @@ theorem statsReq_pure (k : String) (v : V) : Pure2 (StatsReq.lenM k) (StatsReq.m
         cases h3; rfl
     · exact absurd h (by simp)
 
-/-- ErrorMsg (its encoder does not touch Header.Length) -/
-theorem errorMsg_pure (v : V) : Pure2 ErrorMsg.lenM ErrorMsg.marshalM v := by
-  have hl : LenPure ErrorMsg.lenM v := by
-    intro l v1 h
-    unfold ErrorMsg.lenM at h
-    split at h
-    · obtain ⟨⟨lb, d'⟩, hd, h2⟩ := bind_ok_inv _ _ _ h
-      have e := (uBuffer_pure _).1 _ _ hd
-      subst e
-      cases h2; rfl
-    · exact absurd h (by simp)
-  refine ⟨hl, ?_⟩
-  intro bs v2 h
-  unfold ErrorMsg.marshalM at h
-  obtain ⟨⟨l, v'⟩, hlen, h2⟩ := bind_ok_inv _ _ _ h
-  have e := hl _ _ hlen
-  subst e
-  simp only at h2
-  split at h2
-  · obtain ⟨hb, _, h3⟩ := bind_ok_inv _ _ _ h2
-    obtain ⟨⟨db, d'⟩, hd, h4⟩ := bind_ok_inv _ _ _ h3
-    obtain ⟨b, _, h5⟩ := bind_ok_inv _ _ _ h4
-    have e2 := (uBuffer_pure _).2 _ _ hd
-    subst e2
-    cases h5; rfl
-  · exact absurd h2 (by simp)
-
-/-- FlowRemoved (its encoder does not touch Header.Length) -/
-theorem flowRemoved_pure (v : V) : Pure2 FlowRemoved.lenM FlowRemoved.marshalM v := by
-  have hl : LenPure FlowRemoved.lenM v := by
-    intro l v1 h
-    unfold FlowRemoved.lenM at h
-    split at h
-    · obtain ⟨⟨lm, m'⟩, hm, h2⟩ := bind_ok_inv _ _ _ h
-      have e := Match.lenM_pure _ _ _ hm
-      subst e
-      cases h2; rfl
-    · exact absurd h (by simp)
-  refine ⟨hl, ?_⟩
-  intro bs v2 h
-  unfold FlowRemoved.marshalM at h
-  obtain ⟨⟨l, v'⟩, hlen, h2⟩ := bind_ok_inv _ _ _ h
-  have e := hl _ _ hlen
-  subst e
-  simp only at h2
-  split at h2
-  · obtain ⟨hb, _, h3⟩ := bind_ok_inv _ _ _ h2
-    obtain ⟨_, _, h4⟩ := bind_ok_inv _ _ _ h3
-    obtain ⟨⟨mb, m'⟩, hmm, h5⟩ := bind_ok_inv _ _ _ h4
-    have e2 := Match.marshalM_pure _ _ _ hmm
-    subst e2
-    obtain ⟨⟨lm, m''⟩, hml, h6⟩ := bind_ok_inv _ _ _ h5
-    have e3 := Match.lenM_pure _ _ _ hml
-    subst e3
-    obtain ⟨b, _, h7⟩ := bind_ok_inv _ _ _ h6
-    cases h7; rfl
-  · exact absurd h2 (by simp)
-
-
-/-! ### (b) messages that store `Header.Length = Len()` (or their own Length) when encoded -/
-
 /-- SwitchConfig (SetConfig / GetConfigReply) -/
 theorem switchConfig_repeatable : ∀ v, Repeatable SwitchConfig.lenM SwitchConfig.marshalM v := by
   apply repeatable_of_lenThen SwitchConfig.lenM
@@ -1671,34 +1612,6 @@ theorem tlvTableReply_pure (v : V) : Pure2 TLVTableReply.lenM TLVTableReply.mars
     cases h4; rfl
   · exact absurd h2 (by simp)
 
-/-- VendorError (bundle error): neither call touches the value -/
-theorem vendorError_pure (v : V) : Pure2 VendorError.lenM VendorError.marshalM v := by
-  have hl : LenPure VendorError.lenM v := by
-    intro l v1 h
-    unfold VendorError.lenM at h
-    split at h
-    · exact absurd h (by simp)
-    · obtain ⟨⟨le, e'⟩, he, h2⟩ := bind_ok_inv _ _ _ h
-      have e := (errorMsg_pure _).1 _ _ he
-      subst e
-      cases h2; rfl
-    · exact absurd h (by simp)
-  refine ⟨hl, ?_⟩
-  intro bs v2 h
-  unfold VendorError.marshalM at h
-  obtain ⟨⟨l, v'⟩, hlen, h2⟩ := bind_ok_inv _ _ _ h
-  have e := hl _ _ hlen
-  subst e
-  simp only at h2
-  split at h2
-  · obtain ⟨hb, _, h3⟩ := bind_ok_inv _ _ _ h2
-    obtain ⟨⟨db, d'⟩, hd, h4⟩ := bind_ok_inv _ _ _ h3
-    obtain ⟨b, _, h5⟩ := bind_ok_inv _ _ _ h4
-    have e2 := (uBuffer_pure _).2 _ _ hd
-    subst e2
-    cases h5; rfl
-  · exact absurd h2 (by simp)
-
 /-- SwitchFeatures: MarshalBinary() stores `Header.Length = Len()`; the ports are encoded from copies -/
 theorem switchFeatures_repeatable : ∀ v, Repeatable SwitchFeatures.lenM SwitchFeatures.marshalM v := by
   have hlp : ∀ v, LenPure SwitchFeatures.lenM v := by
@@ -1743,5 +1656,143 @@ theorem switchFeatures_repeatable : ∀ v, Repeatable SwitchFeatures.lenM Switch
       simp only [hl2, Res.bind_ok, Header.setLength_idem, hhb, hm, hf]
     · exact absurd hE (by simp)
 
+
+/-! ### (b) messages that store `Header.Length = Len()`: ErrorMsg, VendorError, FlowRemoved
+  (since Go commits mirrored on 2026-09-29 their encoders set the header length; they were pure before) -/
+
+/-- ErrorMsg: MarshalBinary() stores `Header.Length = Len()`; Len() itself changes nothing -/
+theorem errorMsg_repeatable : ∀ v, Repeatable ErrorMsg.lenM ErrorMsg.marshalM v := by
+  apply repeatable_of_lenThen ErrorMsg.lenM
+    (fun l0 v => do
+      let (l, v) ← ErrorMsg.lenM v
+      match v with
+      | .obj "ErrorMsg" [h, .num t, .num c, d] =>
+        let h := Header.setLength l0 h
+        let hb ← Header.bytes h
+        let (db, d) ← UBuffer.marshalM d
+        let bs ← fill l.toNat [pCopy hb, pU16 t, pU16 c, pCopy db]
+        .ok (bs, .obj "ErrorMsg" [h, .num t, .num c, d])
+      | _ => .panic)
+  · intro v; rfl
+  · intro v; exact (ErrorMsg.lenM_pure v).idem
+  · intro l v1 bs v2 hl hE
+    simp only [hl, Res.bind_ok] at hE
+    split at hE
+    · rename_i h t c d
+      obtain ⟨hb, hhb, h3⟩ := bind_ok_inv _ _ _ hE
+      obtain ⟨⟨db, d'⟩, hd, h4⟩ := bind_ok_inv _ _ _ h3
+      obtain ⟨b, hf, h5⟩ := bind_ok_inv _ _ _ h4
+      have e := UBuffer.marshalM_pure _ _ _ hd
+      subst e
+      cases h5
+      have hl2 : ErrorMsg.lenM (.obj "ErrorMsg" [Header.setLength l h, .num t, .num c, d']) =
+          .ok (l, .obj "ErrorMsg" [Header.setLength l h, .num t, .num c, d']) := by
+        simp only [ErrorMsg.lenM] at hl ⊢
+        obtain ⟨⟨lb, d2⟩, hd2, hl'⟩ := bind_ok_inv _ _ _ hl
+        simp only [Res.pure_eq, Res.ok.injEq, Prod.mk.injEq, V.obj.injEq, List.cons.injEq, true_and, and_true] at hl'
+        obtain ⟨e1, e2⟩ := hl'
+        subst e1; subst e2
+        simp only [hd2, Res.bind_ok, Res.pure_eq]
+      refine ⟨hl2, ?_⟩
+      simp only [hl2, Res.bind_ok, Header.setLength_idem, hhb, hd, hf]
+    · exact absurd hE (by simp)
+
+/-- …and it is no longer pure: encoding a fresh ErrorMsg changes its header's Length from 8 to 12 -/
+theorem errorMsg_not_pure : ∃ v bs v2, ErrorMsg.marshalM v = .ok (bs, v2) ∧ v2 ≠ v :=
+  ⟨ErrorMsg.new, _, _, rfl, by
+    intro h
+    simp only [ErrorMsg.new, msgOfpHeader, msgHdrType, newHeader, Header.setLength, V.u8, V.u16, V.u32, V.obj.injEq,
+      List.cons.injEq, V.num.injEq, true_and, and_true] at h
+    revert h; decide⟩
+
+/-- VendorError (bundle error): MarshalBinary() stores the embedded header's `Length = Len()` -/
+theorem vendorError_repeatable : ∀ v, Repeatable VendorError.lenM VendorError.marshalM v := by
+  apply repeatable_of_lenThen VendorError.lenM
+    (fun l0 v => do
+      let (l, v) ← VendorError.lenM v
+      match v with
+      | .obj "VendorError" [.obj "ErrorMsg" [h, .num t, .num c, d], .num x] =>
+        let h := Header.setLength l0 h
+        let hb ← Header.bytes h
+        let (db, d) ← UBuffer.marshalM d
+        let bs ← fill l.toNat [pCopy hb, pU16 t, pU16 c, pU32 x, pCopy db]
+        .ok (bs, .obj "VendorError" [.obj "ErrorMsg" [h, .num t, .num c, d], .num x])
+      | _ => .panic)
+  · intro v; rfl
+  · intro v; exact (VendorError.lenM_pure v).idem
+  · intro l v1 bs v2 hl hE
+    simp only [hl, Res.bind_ok] at hE
+    split at hE
+    · rename_i h t c d x
+      obtain ⟨hb, hhb, h3⟩ := bind_ok_inv _ _ _ hE
+      obtain ⟨⟨db, d'⟩, hd, h4⟩ := bind_ok_inv _ _ _ h3
+      obtain ⟨b, hf, h5⟩ := bind_ok_inv _ _ _ h4
+      have e := UBuffer.marshalM_pure _ _ _ hd
+      subst e
+      cases h5
+      have hl2 : VendorError.lenM (.obj "VendorError" [.obj "ErrorMsg" [Header.setLength l h, .num t, .num c, d'], .num x]) =
+          .ok (l, .obj "VendorError" [.obj "ErrorMsg" [Header.setLength l h, .num t, .num c, d'], .num x]) := by
+        simp only [VendorError.lenM, ErrorMsg.lenM] at hl ⊢
+        obtain ⟨⟨le, e2⟩, he, hl'⟩ := bind_ok_inv _ _ _ hl
+        obtain ⟨⟨lb, d2⟩, hd2, he'⟩ := bind_ok_inv _ _ _ he
+        simp only [Res.pure_eq, Res.ok.injEq, Prod.mk.injEq] at he'
+        obtain ⟨e3, e4⟩ := he'
+        subst e3; subst e4
+        simp only [Res.pure_eq, Res.ok.injEq, Prod.mk.injEq, V.obj.injEq, List.cons.injEq, true_and, and_true] at hl'
+        obtain ⟨e5, e6⟩ := hl'
+        subst e5; subst e6
+        simp only [hd2, Res.bind_ok, Res.pure_eq]
+      refine ⟨hl2, ?_⟩
+      simp only [hl2, Res.bind_ok, Header.setLength_idem, hhb, hd, hf]
+    · exact absurd hE (by simp)
+
+/-- FlowRemoved: MarshalBinary() stores `Header.Length = Len()`; Len() itself changes nothing -/
+theorem flowRemoved_repeatable : ∀ v, Repeatable FlowRemoved.lenM FlowRemoved.marshalM v := by
+  apply repeatable_of_lenThen FlowRemoved.lenM
+    (fun l0 v => do
+      let (l, v) ← FlowRemoved.lenM v
+      match v with
+      | .obj "FlowRemoved" [h, .num ck, .num pr, .num rs, .num tid, .num ds, .num dn, .num it, .num ht, .num pc,
+          .num bc, m] => do
+        let h := Header.setLength l0 h
+        let hb ← Header.bytes h
+        let fixed := [pCopyAdv hb 8, pU64 ck, pU16 pr, pU8 rs, pU8 tid, pU32 ds, pU32 dn, pU16 it, pU16 ht,
+          pU64 pc, pU64 bc]
+        let _ ← fill l.toNat fixed
+        let (mb, m) ← Match.marshalM m
+        let (_, m) ← Match.lenM m
+        let bs ← fill l.toNat (fixed ++ [pCopy mb])
+        .ok (bs, .obj "FlowRemoved" [h, .num ck, .num pr, .num rs, .num tid, .num ds, .num dn, .num it, .num ht,
+          .num pc, .num bc, m])
+      | _ => .panic)
+  · intro v; rfl
+  · intro v; exact (FlowRemoved.lenM_pure v).idem
+  · intro l v1 bs v2 hl hE
+    simp only [hl, Res.bind_ok] at hE
+    split at hE
+    · rename_i h ck pr rs tid ds dn it ht pc bc m
+      obtain ⟨hb, hhb, h3⟩ := bind_ok_inv _ _ _ hE
+      obtain ⟨f0, hf0, h4⟩ := bind_ok_inv _ _ _ h3
+      obtain ⟨⟨mb, m'⟩, hmm, h5⟩ := bind_ok_inv _ _ _ h4
+      have e := Match.marshalM_pure _ _ _ hmm
+      subst e
+      obtain ⟨⟨lm, m''⟩, hml, h6⟩ := bind_ok_inv _ _ _ h5
+      have e2 := Match.lenM_pure _ _ _ hml
+      subst e2
+      obtain ⟨b, hf, h7⟩ := bind_ok_inv _ _ _ h6
+      cases h7
+      have hl2 : FlowRemoved.lenM (.obj "FlowRemoved" [Header.setLength l h, .num ck, .num pr, .num rs, .num tid, .num ds, .num dn,
+            .num it, .num ht, .num pc, .num bc, m'']) =
+          .ok (l, .obj "FlowRemoved" [Header.setLength l h, .num ck, .num pr, .num rs, .num tid, .num ds, .num dn,
+            .num it, .num ht, .num pc, .num bc, m'']) := by
+        simp only [FlowRemoved.lenM] at hl ⊢
+        obtain ⟨⟨lm2, m2⟩, hm2, hl'⟩ := bind_ok_inv _ _ _ hl
+        simp only [Res.ok.injEq, Prod.mk.injEq, V.obj.injEq, List.cons.injEq, true_and, and_true] at hl'
+        obtain ⟨e1, e3⟩ := hl'
+        subst e1; subst e3
+        simp only [hm2, Res.bind_ok]
+      refine ⟨hl2, ?_⟩
+      simp only [hl2, Res.bind_ok, Header.setLength_idem, hhb, hf0, hmm, hml, hf]
+    · exact absurd hE (by simp)
 
 end OFV.Props.C13
